@@ -666,6 +666,12 @@ func runHist(o *Out, thorough bool, withUC bool) {
 		if waitBias {
 			p = Profile{MaxStops: 4 + rng.Intn(5), MaxVehicles: 1 + rng.Intn(2), Windows: true, Waits: true, NonMetric: true,
 				TD: true, Limits: true, Tight: ci%2 == 0, ForceWindows: true, Precedence: ci%3 != 0, ForcePrec: ci%3 == 1, Trap: ci%3 == 2}
+			if ci%5 == 4 {
+				// metric travel, declared so through the model API: the latest-start / latest-end exact checks are off, the wait
+				// limits are what un-planning has to re-validate (removing a stop makes the vehicle arrive earlier and wait longer)
+				p = Profile{MaxStops: 4 + rng.Intn(5), MaxVehicles: 1 + rng.Intn(2), Windows: true, Waits: true, Limits: true,
+					Tight: ci%2 == 0, ForceWindows: true, Metric: true, Precedence: rng.Intn(2) == 0}
+			}
 		}
 		c := genCase(rng, p)
 		hc := &histCase{Case: c, Seed: rng.Int63()}
@@ -725,6 +731,15 @@ func runHistCase(o *Out, ci int, hc *histCase, nops int, distinct map[string]boo
 	if uc == nil {
 		engC = newEngCtx(bt)
 	}
+	if c.ClaimMetric {
+		// under the triangle claim initial routes are not checked (E35, listed): the engine model, which builds its state
+		// by a full check of the routes handed over, has no state for such a route
+		for _, ve := range c.Vehicles {
+			if len(ve.Initial) > 0 {
+				engC = nil
+			}
+		}
+	}
 	forbid := &forbidState{}
 	fc := ucForbid{st: forbid, temporal: hc.Seed%2 == 0}
 	fo := ucObjective{id: new(int)}
@@ -780,7 +795,11 @@ func runHistCase(o *Out, ci int, hc *histCase, nops int, distinct map[string]boo
 			}
 		}
 	}
-	observe(sol, "new-solution")
+	if c.ClaimMetric {
+		observe(sol, "new-solution(claims-metric)")
+	} else {
+		observe(sol, "new-solution")
+	}
 	doPanicEarly := func(f func()) {
 		defer func() {
 			if r := recover(); r != nil {
@@ -1528,7 +1547,14 @@ func runHistCase(o *Out, ci int, hc *histCase, nops int, distinct map[string]boo
 				o.Violate(Violation{Property: "C18", Clause: "check-changed-solution", Sig: "C18|check-changed-solution|" + culprit + "|" + changedParts(before, after) + "|" + verb,
 					Detail: diffSnap(before, after), Replay: hc})
 			}
-			checkTruthful(o, hc, sol, verb, violate)
+			// what the check reports is judged on solutions whose books are in order (a solution the check itself has
+			// torn — reported above — or one torn before has units that are listed unplanned with stops on a route:
+			// "can be planned" has no meaning for them)
+			if booksConsistent(sol) {
+				checkTruthful(o, hc, sol, verb, violate)
+			} else {
+				o.Count("check-truthfulness-skipped:books-inconsistent")
+			}
 		}
 		hc.Ops = append(hc.Ops, opDesc)
 		observe(sol, opDesc)
@@ -2006,6 +2032,11 @@ func checkTruthful(o *Out, hc *histCase, sol nextroute.Solution, verb string, vi
 	// constraint with an optimistic estimate failed moves are expected (C19), the truthfulness of "plannable" is not
 	out, err := check.SolutionCheck(sol, check.Options{Verbosity: verb, Duration: 5 * time.Second})
 	if err != nil {
+		return
+	}
+	if !booksConsistent(sol) {
+		// this run of the check has torn a group (E16; the observation that follows reports it)
+		o.Count("check-truthfulness-skipped:books-inconsistent")
 		return
 	}
 	if hc.UC == nil && (out.Summary.MovesFailed > 0 || out.Summary.PlanUnitsBestMoveFailed > 0) {
